@@ -201,13 +201,19 @@ def families(quick):
             yield "wrap", '%s = "%s"\n' % (pad, " ".join(words[i % len(words)] for i in range(n)))
             yield "wrap", "GROUP = g\n  %s = {%s}\nEND_GROUP\n" % (pad, ", ".join('"%s"' % words[i % len(words)] for i in range(n)))
     # units expressions with blanks in every amount and place
-    for u in ("m/s", " m ", "m  s", "KM   /   S", "a    b     c", "m\n   s", "m \n\n s", "  km  **  2  ", "m\t/\ts", "m\r\n/s"):
+    for u in ("", " ", "m/s", " m ", "m  s", "KM   /   S", "a    b     c", "m\n   s", "m \n\n s", "  km  **  2  ", "m\t/\ts", "m\r\n/s"):
         yield "units", "k = 1.5 <%s>\nj = (1 <%s>, 2)\ni = (1, 2) <%s>\nGROUP = g\n h = x <%s>\nEND_GROUP\n" % (u, u, u, u)
     # every small container tree as text (repeated names at every level, groups and objects)
     from . import c19
     for name, t in c19.texts_generated(True):
         if name == "tree" or name.startswith("shape"):
             yield name, t
+    # statements longer than the line, without any quoted string, whose fold can land inside units
+    for n in (8, 11, 14, 17):
+        for off in range(0, 6 if quick else 12):
+            pad = "k" * (1 + off)
+            yield "wrap", "%s = (%s) <km / s>\n" % (pad, ", ".join(str(1001 + i) for i in range(n)))
+            yield "wrap", "%s = (%s)\n" % (pad, ", ".join("%d <km / s>" % (101 + i) for i in range(n // 2)))
     yield "wrap", "k = %s\n" % "-".join(["word"] * 30)
     yield "wrap", "k = (%s)\n" % ", ".join("2001-01-01T12:00:00.123456Z" for _ in range(8))
 
